@@ -273,6 +273,10 @@ def judgeC09 (op : POp) (out : String) : Expect :=
 def judgeC02 (op : POp) (out : String) : Expect :=
   match op with
   | .parse e d _ =>
+    -- the exception recognisers: the error they hand out is the typed exception as documented (a pointer): `errors.As`
+    -- with that type finds it
+    if (e == "aserrT" || e == "aserrR" || e == "aserrRC") && (out.splitOn "BYVALUE").length > 1 then
+      .pred false "an exception frame was reported by a value, not by the documented pointer type: errors.As / a type assertion with *ErrorResponse{TCP,RTU} does not recognise it" else
     if !isRespEntry e then .free else
     match framingOfEntry e with
     | none => .free
